@@ -84,6 +84,8 @@ func (v Vars) render() map[string]string {
 	}
 	f["misc/n.txt"] = fmt.Sprintf("n%d\n", v.N)
 	f["misc/m.txt"] = "m\n"
+	f["misc/gen/g.txt"] = "decoy\n" // named like a declared output, relative to misc/
+	f["misc/out/mid"] = "decoy\n"
 	switch v.Link {
 	case 1:
 		f["dir/link"] = symlinkPrefix + "../misc/n.txt"
